@@ -6,6 +6,7 @@ from vlib import *
 # spec used for each harness profile
 PROFILE_SPEC = {
     'dec-whole': 'TraceDec', 'dec-cutsets': 'TraceDec', 'dec-random': 'TraceDec', 'dec-bom': 'TraceDec',
+    'dec-replay': 'TraceDec',
 }
 
 
@@ -47,19 +48,27 @@ def dev(profile, spec, extra, seed, tier):
 
 
 def replay(path):
-    """re-validate a replay file (a recorded history) with the trace spec that produced it"""
+    """re-execute a replay file (a recorded history) on the real code built from /repo's working tree and
+    validate the fresh trace with the trace spec"""
     lines = [l for l in open(path).read().split('\n') if l.strip()]
     meta = None
     if lines and '"ev":"VIOLATION"' in lines[-1]:
         meta = json.loads(lines[-1])
         lines = lines[:-1]
     first = json.loads(lines[0])
-    spec = {'N': 'TraceDec', 'NE': 'TraceEnc'}.get(first.get('ev'), 'TraceDec')
-    tmp = RUN + '/replay/_replay_tmp.ndjson'
-    os.makedirs(RUN + '/replay', exist_ok=True)
-    open(tmp, 'w').write('\n'.join(lines) + '\n')
-    r = validate_trace(spec, tmp)
+    kind = {'N': 'dec', 'NE': 'enc'}.get(first.get('ev'), 'dec')
+    outdir = RUN + '/replay/_tmp'
+    clean_dir(outdir)
+    src = outdir + '/in.ndjson'
+    open(src, 'w').write('\n'.join(lines) + '\n')
+    binp = build_harness('default')
+    st = run_profile(binp, kind + '-replay', outdir, 1, 'quick', shards=1, extra=['--in', src])
+    r = validate_trace(PROFILE_SPEC[kind + '-replay'], st['files'][0])
     print(json.dumps({'recorded': meta, 'revalidated_viol': r['viol']}, indent=1))
+    for l in open(st['files'][0]):
+        print('   ', l.strip()[:300])
+    if r['viol']:
+        print('VIOLATION property=%s replay=%s tag=%s' % (owner_of(r['viol'][0]['tag'], 'C00'), path, r['viol'][0]['tag']))
     return 1 if r['viol'] else 0
 
 
